@@ -1005,6 +1005,18 @@ func subscriptionsAtStartupOnly(c *Ctx, r *Report, rule string) {
 				})
 			}
 		}
+		// and nobody subscribes inside a loop (a `case x := <-conn.Subscribe():` re-evaluates the call on every pass)
+		for _, g := range c.ModFuncs {
+			if !c.isProd(g) {
+				continue
+			}
+			eachInstr(g, func(i ssa.Instruction) {
+				if cc := asCall(i); cc != nil && cc.StaticCallee() == sub && inCycle(g, i) {
+					bad = fnName(g) + " subscribes on every pass of a loop at " + c.InstrPos(i)
+					shrinks = false
+				}
+			})
+		}
 		r.Check(bad == "" || shrinks, rule, fnName(sub), "subscribers", c.Pos(sub.Pos()), "subscriptions to the membership notifications are made on start-up paths only (subscribed from an apply / RPC tree: "+bad+"; the list can shrink: "+fmt.Sprint(shrinks)+")")
 	}
 	if n == 0 {
